@@ -122,9 +122,14 @@ def pairs(rng):
     lat = [None if rng.random() < 0.08 else 50.0 + 0.125 * rng.randrange(0, 12) for _ in range(n)]
     hops = sorted({models.geodist(lat[k - 1], lon[k - 1], lat[k], lon[k]) for k in range(1, n)
                    if None not in (lon[k], lat[k], lon[k - 1], lat[k - 1])}) or [1000.0]
-    boxL = [10.0, 50.0, 13.0, 51.5]
-    boxS = [boxL[0] + rng.choice([0, 0.25, 1]), boxL[1] + rng.choice([0, 0.125, 0.5]), boxL[2] - rng.choice([0, 0.25, 1]),
+    boxL = [10.0 + rng.choice([0, 0, 0.5, 1.25]), 50.0 + rng.choice([0, 0, 0.25]), 13.0 - rng.choice([0, 0, 1, 1.75]),
+            51.5 - rng.choice([0, 0, 0.5])]  # the loose box may already leave positions outside (FAIL)
+    boxS = [boxL[0] + rng.choice([0, 0.25, 0.5]), boxL[1] + rng.choice([0, 0.125, 0.5]), boxL[2] - rng.choice([0, 0.25, 0.5]),
             boxL[3] - rng.choice([0, 0.125, 0.5])]
+    if boxS[0] > boxS[2]:
+        boxS[0] = boxS[2] = (boxL[0] + boxL[2]) / 2
+    if boxS[1] > boxS[3]:
+        boxS[1] = boxS[3] = (boxL[1] + boxL[3]) / 2
     rL = rng.choice([None, *(h * 1.001 for h in hops), hops[-1] * 2])
     rS = rng.choice([h * f for h in hops for f in (0.5, 0.999) if rL is None or h * f <= rL] or [rL if rL is not None else 0.0])
     if rL is None and rng.random() < 0.4:
